@@ -1,6 +1,6 @@
 """C06 — comments preserved: text of every comment survives (kernel level)."""
 from mirsym import models_typst as T
-from . import comments, lists, flows
+from . import comments, lists, flows, chains
 
 EXPLANATION = (
     "Bounded symbolic execution (MIR->SMT, z3) of pretty/comment.rs: for every block comment '/*' + up to M code points + '*/' the "
@@ -8,8 +8,10 @@ EXPLANATION = (
     "continuation lines and trailing blanks; every line comment '//' + up to M code points is emitted byte-identically by comment(). "
     "Conservation in the layout helpers: ListStylist (every ListStyle the crate builds, every fold style/option) and "
     "convert_flow_like_iter + FlowStylist over every child sequence of up to K nodes (items, comments, commas, whitespace, hash, "
-    "keywords): in both observed layouts the comment and item atoms appear exactly once each, in source order. The chain and plain "
-    "stylists, markup- and math-level placement and 'between the same neighbouring words' across constructs are outside the claim.")
+    "keywords): in both observed layouts the comment and item atoms appear exactly once each, in source order. Dot chains: "
+    "convert_field_access (try_convert_dot_chain, the plain forms, ChainStylist::process/print_doc) on a.f0.f1 with up to two comments "
+    "(block, or line comment + newline) at any of the four gaps around the dots, every mode / suppression flag / chain width: all "
+    "comments and links are re-emitted once, in order. The binary chain and plain stylists, markup- and math-level placement and 'between the same neighbouring words' across constructs are outside the claim.")
 
 
 def run(S):
@@ -23,6 +25,9 @@ def run(S):
     f2 = flows.explore_flow(S, KF, want=('C06',))
     f2 += lists.explore(S, KL, want=('C06',))
     lists.report(S, 'C06', f2)
+    f3 = chains.explore(S, want=('C06',))
+    chains.report(S, 'C06', f3)
     S.assumptions += lists.ASSUMPTIONS
+    S.assumptions.append('comments inside field accesses only occur in code mode (in markup/math the lexer ends the embedded expression at the comment)')
     S.assumptions += comments.ASSUMPTIONS
     return S.finish(level='other', explanation=EXPLANATION, trusted=['mirsym encoder', 'std string contracts', 'Doc algebra contracts'])
